@@ -211,14 +211,26 @@ Section Real.
   (* interior face: exactly two incidence entries with opposite signs, not on the boundary
      list, not flagged Neumann/internal *)
   Definition interior (f c1 c2 : nat) (s : Z) : Prop :=
-    on_face f = [(f, c1, s); (f, c2, (- s)%Z)] /\ ~ In f (bnd I) /\ neu' R I f = false.
+    on_face f = [geo f c1 s; geo f c2 (- s)%Z] /\ ~ In f (bnd I) /\ neu' R I f = false.
 
   (* boundary face: exactly one incidence entry, listed once among the boundary faces *)
+  Definition geo_face (f : nat) : list inc := filter (fun e => (tg e =? f)%nat) (cf I).
+
   Definition boundary (f c : nat) (s : Z) : Prop :=
-    on_face f = [(f, c, s)] /\ In f (bnd I) /\ NoDup (bnd I).
+    (on_face f = [geo f c s] /\ geo_face f = [geo f c s]) /\ In f (bnd I) /\ NoDup (bnd I).
+
+  Lemma filter_andb {A} (p q : A -> bool) l :
+    filter (fun x => p x && q x) l = filter q (filter p l).
+  Proof.
+    induction l as [|a l IH]; [reflexivity|]. cbn [filter].
+    destruct (p a); cbn [andb filter]; [destruct (q a); rewrite IH; reflexivity | exact IH].
+  Qed.
 
   Lemma bsgn_boundary f c s : boundary f c s -> rbsgn I f = IZR s.
-  Proof. intros [H _]. unfold bsgn. fold (on_face f). rewrite H. reflexivity. Qed.
+  Proof.
+    intros [[H _] _]. unfold bsgn. rewrite filter_andb. fold (on_face f). rewrite H.
+    cbn [filter geo tg fst snd]. rewrite Nat.eqb_refl. reflexivity.
+  Qed.
 
   (* ---------------- C12_single_valued ---------------- *)
   Theorem single_valued_theorem f c1 c2 s :
@@ -227,7 +239,7 @@ Section Real.
               rt_full I f * IZR s * ((if (c1 =? j)%nat then 1 else 0) - (if (c2 =? j)%nat then 1 else 0)).
   Proof.
     intros [H [_ Hn]] j. rewrite entry_flux, H. unfold t_flux. rewrite Hn.
-    rewrite !lsum_cons, lsum_nil. unfold tc, ts. cbn [fst snd]. rewrite opp_IZR.
+    rewrite !lsum_cons, lsum_nil. unfold tc, ts, geo. cbn [fst snd]. rewrite opp_IZR.
     destruct (c1 =? j)%nat, (c2 =? j)%nat; ring.
   Qed.
 
@@ -236,7 +248,7 @@ Section Real.
     interior f c1 c2 s -> face_flux (fun _ => p0) bv f = 0.
   Proof.
     intros [H [Hb Hn]]. unfold face_flux. rewrite row_apply_flux, H, row_apply_bflux_notin by exact Hb.
-    rewrite !lsum_cons, lsum_nil. unfold ts. cbn [fst snd]. rewrite opp_IZR. ring.
+    rewrite !lsum_cons, lsum_nil. unfold ts, geo. cbn [fst snd]. rewrite opp_IZR. ring.
   Qed.
 
   Theorem constant_zero_boundary f c s p0 bv :
@@ -244,9 +256,9 @@ Section Real.
     (neu' R I f = true /\ bv f = 0) \/ (neu' R I f = false /\ dir' R I f = true /\ bv f = p0) ->
     face_flux (fun _ => p0) bv f = 0.
   Proof.
-    intros Hb Hbc. pose proof (bsgn_boundary _ _ _ Hb) as Hs. destruct Hb as [H [Hin Hnd]].
+    intros Hb Hbc. pose proof (bsgn_boundary _ _ _ Hb) as Hs. destruct Hb as [[H Hg] [Hin Hnd]].
     unfold face_flux. rewrite row_apply_flux, H, (row_apply_bflux_in bv f Hnd Hin), Hs.
-    rewrite !lsum_cons, lsum_nil. unfold ts, t_flux, t_b. cbn [fst snd].
+    rewrite !lsum_cons, lsum_nil. unfold ts, geo, t_flux, t_b. cbn [fst snd].
     destruct Hbc as [[Hn Hv]|[Hn [Hd Hv]]]; rewrite Hn, ?Hd, Hv; ring.
   Qed.
 
@@ -366,11 +378,11 @@ Section Real.
 
   Lemma dot_knvec (a : rvec) e K0 :
     perm I (tc e) = K0 ->
-    rdot a (rknvec I e) = IZR (ts e) * rdot (rmulmv K0 (normal I (tf e))) a.
+    rdot a (rknvec I e) = IZR (tgs e) * rdot (rmulmv K0 (normal I (tg e))) a.
   Proof.
     intros HK. unfold knvec, nvec. rewrite HK.
     destruct K0 as [[[[k11 k12] k13] [[k21 k22] k23]] [[k31 k32] k33]].
-    destruct (normal I (tf e)) as [[n1 n2] n3]. destruct a as [[a1 a2] a3].
+    destruct (normal I (tg e)) as [[n1 n2] n3]. destruct a as [[a1 a2] a3].
     unfold mulmv, vscale. unfold dot, vx, vy, vz. cbn [fst snd]. ring.
   Qed.
 
@@ -380,8 +392,8 @@ Section Real.
   Lemma lin_diff a b e K0 :
     korth e -> perm I (tc e) = K0 ->
     0 < rhalf I e /\
-    (linear a b (fcen I (tf e)) - linear a b (ccen I (tc e))) * rhalf I e
-      = IZR (ts e) * rdot (rmulmv K0 (normal I (tf e))) a.
+    (linear a b (fcen I (tg e)) - linear a b (ccen I (tc e))) * rhalf I e
+      = IZR (tgs e) * rdot (rmulmv K0 (normal I (tg e))) a.
   Proof.
     intros Hk HK. destruct (korth_half e Hk) as [Hp Hd]. split; [exact Hp|].
     rewrite <- (dot_knvec a e K0 HK), <- Hd. unfold dvec, linear. rewrite dot_vsub. ring.
@@ -389,16 +401,16 @@ Section Real.
 
   Theorem linear_exact_interior a b K0 f c1 c2 s bv :
     interior f c1 c2 s -> (s = 1 \/ s = -1)%Z ->
-    korth (f, c1, s) -> korth (f, c2, (- s)%Z) -> perm I c1 = K0 -> perm I c2 = K0 ->
+    korth (geo f c1 s) -> korth (geo f c2 (- s)%Z) -> perm I c1 = K0 -> perm I c2 = K0 ->
     face_flux (fun c => linear a b (ccen I c)) bv f = - rdot (rmulmv K0 (normal I f)) a.
   Proof.
     intros [H [Hb Hn]] Hs K1 K2 P1 P2.
     destruct (lin_diff a b _ K0 K1 P1) as [Hp1 D1]. destruct (lin_diff a b _ K0 K2 P2) as [Hp2 D2].
-    unfold tf, tc, ts in D1, D2. cbn [fst snd] in D1, D2.
+    unfold tf, tc, ts, tg, tgs, geo in D1, D2. cbn [fst snd] in D1, D2. unfold geo in Hp1, Hp2.
     unfold face_flux. rewrite row_apply_flux, H, row_apply_bflux_notin by exact Hb.
     rewrite !lsum_cons, lsum_nil. unfold t_flux, t_full. rewrite Hn, inv_sum_filter, H.
-    rewrite !lsum_cons, lsum_nil. unfold tc, ts. cbn [fst snd].
-    set (h1 := rhalf I (f, c1, s)) in *. set (h2 := rhalf I (f, c2, (- s)%Z)) in *.
+    rewrite !lsum_cons, lsum_nil. unfold tc, ts, geo. cbn [fst snd].
+    set (h1 := rhalf I (f, c1, s, f, s)) in *. set (h2 := rhalf I (f, c2, (- s)%Z, f, (- s)%Z)) in *.
     set (X := rdot (rmulmv K0 (normal I f)) a) in *.
     set (pf := linear a b (fcen I f)) in *.
     set (p1 := linear a b (ccen I c1)) in *. set (p2 := linear a b (ccen I c2)) in *.
@@ -412,16 +424,16 @@ Section Real.
   Theorem linear_exact_dirichlet a b K0 f c s bv :
     boundary f c s -> (s = 1 \/ s = -1)%Z ->
     neu' R I f = false -> dir' R I f = true ->
-    korth (f, c, s) -> perm I c = K0 -> bv f = linear a b (fcen I f) ->
+    korth (geo f c s) -> perm I c = K0 -> bv f = linear a b (fcen I f) ->
     face_flux (fun c => linear a b (ccen I c)) bv f = - rdot (rmulmv K0 (normal I f)) a.
   Proof.
     intros Hbd Hs Hn Hd K1 P1 Hv. pose proof (bsgn_boundary _ _ _ Hbd) as Hsg.
-    destruct Hbd as [H [Hin Hnd]].
-    destruct (lin_diff a b _ K0 K1 P1) as [Hp1 D1]. unfold tf, tc, ts in D1. cbn [fst snd] in D1.
+    destruct Hbd as [[H Hg] [Hin Hnd]].
+    destruct (lin_diff a b _ K0 K1 P1) as [Hp1 D1]. unfold tf, tc, ts, tg, tgs, geo in D1. cbn [fst snd] in D1. unfold geo in Hp1.
     unfold face_flux. rewrite row_apply_flux, H, (row_apply_bflux_in bv f Hnd Hin), Hsg, Hv.
     rewrite !lsum_cons, lsum_nil. unfold t_flux, t_b, t_full. rewrite Hn, Hd, inv_sum_filter, H.
-    rewrite !lsum_cons, lsum_nil. unfold tc, ts. cbn [fst snd].
-    set (h1 := rhalf I (f, c, s)) in *. set (X := rdot (rmulmv K0 (normal I f)) a) in *.
+    rewrite !lsum_cons, lsum_nil. unfold tc, ts, geo. cbn [fst snd].
+    set (h1 := rhalf I (f, c, s, f, s)) in *. set (X := rdot (rmulmv K0 (normal I f)) a) in *.
     set (pf := linear a b (fcen I f)) in *. set (p1 := linear a b (ccen I c)) in *.
     assert (E1 : p1 = pf - IZR s * X / h1).
     { apply (Rmult_eq_reg_r h1); [|lra]. replace ((pf - IZR s * X / h1) * h1) with (pf * h1 - IZR s * X) by (field; lra). lra. }
@@ -435,7 +447,7 @@ Section Real.
     face_flux (fun c => linear a b (ccen I c)) bv f = - rdot (rmulmv K0 (normal I f)) a.
   Proof.
     intros Hbd Hs Hn Hv. pose proof (bsgn_boundary _ _ _ Hbd) as Hsg.
-    destruct Hbd as [H [Hin Hnd]].
+    destruct Hbd as [[H Hg] [Hin Hnd]].
     unfold face_flux. rewrite row_apply_flux, H, (row_apply_bflux_in bv f Hnd Hin), Hsg, Hv.
     rewrite !lsum_cons, lsum_nil. unfold t_flux, t_b. rewrite Hn.
     destruct Hs as [-> | ->]; ring.
@@ -443,11 +455,11 @@ Section Real.
 
   (* ---------------- C12_bound_pressure ---------------- *)
   Lemma row_apply_bpc p f :
-    row_apply (rbpc I) p f = lsum (fun e => (if is_neu I f then 1 else 0) * p (tc e)) (on_face f).
+    row_apply (rbpc I) p f = lsum (fun e => (if is_neu I f then 1 else 0) * p (tc e)) (geo_face f).
   Proof.
-    unfold row_apply, bound_pressure_cell, on_face. rewrite lsum_map, <- lsum_filter.
+    unfold row_apply, bound_pressure_cell, geo_face. rewrite lsum_map, <- lsum_filter.
     apply lsum_ext. intros e _. unfold mrow, mcol, mval. cbn [fst snd].
-    destruct (Nat.eqb_spec (tf e) f) as [->|_]; reflexivity.
+    destruct (Nat.eqb_spec (tg e) f) as [->|_]; reflexivity.
   Qed.
 
   Lemma row_apply_bpf bv f : (f < nf I)%nat -> row_apply (rbpf I) bv f = rv_face I f * bv f.
@@ -461,26 +473,64 @@ Section Real.
     boundary f c s -> (f < nf I)%nat -> is_neu I f = false -> is_dir I f = true ->
     face_pressure p bv f = bv f.
   Proof.
-    intros [H _] Hf Hn Hd. unfold face_pressure. rewrite row_apply_bpc, H, row_apply_bpf by exact Hf.
+    intros [[H Hg] _] Hf Hn Hd. unfold face_pressure. rewrite row_apply_bpc, Hg, row_apply_bpf by exact Hf.
     rewrite lsum_cons, lsum_nil. unfold v_face. rewrite Hn, Hd. ring.
   Qed.
 
   Theorem bound_pressure_neumann a b K0 f c s bv :
     boundary f c s -> (f < nf I)%nat -> (s = 1 \/ s = -1)%Z -> is_neu I f = true ->
-    korth (f, c, s) -> perm I c = K0 ->
+    korth (geo f c s) -> perm I c = K0 ->
     bv f = IZR s * (- rdot (rmulmv K0 (normal I f)) a) ->
     face_pressure (fun c => linear a b (ccen I c)) bv f = linear a b (fcen I f).
   Proof.
-    intros [H _] Hf Hs Hn K1 P1 Hv.
-    destruct (lin_diff a b _ K0 K1 P1) as [Hp1 D1]. unfold tf, tc, ts in D1. cbn [fst snd] in D1.
-    unfold face_pressure. rewrite row_apply_bpc, H, row_apply_bpf by exact Hf.
+    intros [[H Hg] _] Hf Hs Hn K1 P1 Hv.
+    destruct (lin_diff a b _ K0 K1 P1) as [Hp1 D1]. unfold tf, tc, ts, tg, tgs, geo in D1. cbn [fst snd] in D1. unfold geo in Hp1.
+    unfold face_pressure. rewrite row_apply_bpc, Hg, row_apply_bpf by exact Hf.
     rewrite lsum_cons, lsum_nil. unfold v_face, t_full. rewrite Hn, inv_sum_filter, H, Hv.
-    rewrite lsum_cons, lsum_nil. unfold tc. cbn [fst snd].
-    set (h1 := rhalf I (f, c, s)) in *. set (X := rdot (rmulmv K0 (normal I f)) a) in *.
+    rewrite lsum_cons, lsum_nil. unfold tc, geo. cbn [fst snd].
+    set (h1 := rhalf I (f, c, s, f, s)) in *. set (X := rdot (rmulmv K0 (normal I f)) a) in *.
     set (pf := linear a b (fcen I f)) in *. set (p1 := linear a b (ccen I c)) in *.
     assert (E1 : p1 = pf - IZR s * X / h1).
     { apply (Rmult_eq_reg_r h1); [|lra]. replace ((pf - IZR s * X / h1) * h1) with (pf * h1 - IZR s * X) by (field; lra). lra. }
     rewrite E1. destruct Hs as [-> | ->]; field; lra.
+  Qed.
+  (* ---------------- periodic pairs ---------------- *)
+  (* faces l and r are identified: l carries its own cell and, through the extension, the
+     cell of r with r's geometry (and vice versa) *)
+  Definition periodic_pair (l r cl cr : nat) (sl sr : Z) : Prop :=
+    on_face l = [geo l cl sl; (l, cr, (- sl)%Z, r, sr)] /\
+    on_face r = [geo r cr sr; (r, cl, (- sr)%Z, l, sl)] /\
+    neu' R I l = false /\ neu' R I r = false.
+
+  Theorem periodic_pair_theorem l r cl cr sl sr :
+    periodic_pair l r cl cr sl sr ->
+    rt_full I l = rt_full I r /\
+    (forall j, entry (rflux I) l j =
+               rt_full I l * IZR sl * ((if (cl =? j)%nat then 1 else 0) - (if (cr =? j)%nat then 1 else 0))) /\
+    (forall j, entry (rflux I) r j =
+               rt_full I l * IZR sr * ((if (cr =? j)%nat then 1 else 0) - (if (cl =? j)%nat then 1 else 0))) /\
+    ((sl = 1 \/ sl = -1)%Z -> (sr = 1 \/ sr = -1)%Z ->
+     forall j, IZR sl * entry (rflux I) l j + IZR sr * entry (rflux I) r j = 0).
+  Proof.
+    intros [Hl [Hr [Nl Nr]]].
+    assert (ET : rt_full I l = rt_full I r).
+    { unfold t_full. rewrite !inv_sum_filter, Hl, Hr. rewrite !lsum_cons, !lsum_nil.
+      change (rhalf I (l, cr, (- sl)%Z, r, sr)) with (rhalf I (geo r cr sr)).
+      change (rhalf I (r, cl, (- sr)%Z, l, sl)) with (rhalf I (geo l cl sl)).
+      f_equal. lra. }
+    assert (E1 : forall j, entry (rflux I) l j =
+               rt_full I l * IZR sl * ((if (cl =? j)%nat then 1 else 0) - (if (cr =? j)%nat then 1 else 0))).
+    { intros j. rewrite entry_flux, Hl. unfold t_flux. rewrite Nl.
+      rewrite !lsum_cons, lsum_nil. unfold tc, ts, geo. cbn [fst snd]. rewrite opp_IZR.
+      destruct (cl =? j)%nat, (cr =? j)%nat; ring. }
+    assert (E2 : forall j, entry (rflux I) r j =
+               rt_full I l * IZR sr * ((if (cr =? j)%nat then 1 else 0) - (if (cl =? j)%nat then 1 else 0))).
+    { intros j. rewrite entry_flux, Hr. unfold t_flux. rewrite Nr, <- ET.
+      rewrite !lsum_cons, lsum_nil. unfold tc, ts, geo. cbn [fst snd]. rewrite opp_IZR.
+      destruct (cl =? j)%nat, (cr =? j)%nat; ring. }
+    split; [exact ET|]. split; [exact E1|]. split; [exact E2|].
+    intros Hsl Hsr j. rewrite E1, E2.
+    destruct Hsl as [-> | ->], Hsr as [-> | ->]; ring.
   Qed.
 End Real.
 
